@@ -31,6 +31,7 @@ def run(ctx):
     ctx.prove('props/C09.v')
     L.lockstep(ctx, [L.mon_c09], ['c09'], with_raw=True)
     L.instr_sweep(ctx, L.C09_KINDS)
+    L.allsigs_probe(ctx, ('lost',))
     ctx.coverage['rule_instruction_sweep'] = ('one more delivery (real handler, sigqueue) at every instruction boundary of pending() / wait() / forever().next(), '
                                               'SignalOnly and WithRawSiginfo, 23 configurations of earlier deliveries incl. bursts longer than the buffer; fork per boundary')
     ctx.coverage['rule'] = ('scenarios {wait | Forever::next | poll_signal | pending + several live batches} x {1-2 deliveries of 1-2 signals, add_signal from another thread, close}: every split point of each activity '
